@@ -117,6 +117,9 @@ type SimConfig struct {
 	// CheckRelQueries queries every (relation component, target) pair through a
 	// RelationFilter after every op and compares with the model (C05, C06).
 	CheckRelQueries bool
+	// ScanRegistered iterates every registered filter after every op and checks the visited
+	// set against the model (C03: "registered or not").
+	ScanRegistered bool
 	// OwnedIf can claim a finding of a category that is not owned unconditionally.
 	OwnedIf func(s *Sim, f *Finding) bool
 }
@@ -247,13 +250,42 @@ func (s *Sim) VerifyAll() {
 		if s.Done() {
 			return
 		}
-		s.Report(classify(b.Verify(s.M, s.Cfg.Verify)))
+		// observables first; then the hidden-state invariants. A broken invariant of a category
+		// this check does not own is only counted: the case goes on, so that its observable
+		// consequence (if any) can still surface under a category that is owned.
+		o := s.Cfg.Verify
+		hooks := o.Hooks
+		o.Hooks = false
+		s.Report(classify(b.Verify(s.M, o)))
+		if hooks && !s.Done() {
+			if err := CheckInvariants(b.W); err != nil {
+				f := classify(fmt.Errorf("%s: structural invariant broken: %v", b.Name, err))
+				if s.Cfg.Owned[f.Cat] || (s.Cfg.OwnedIf != nil && s.Cfg.OwnedIf(s, f)) {
+					s.Report(f)
+				} else if s.St != nil {
+					s.St.Count("unowned_invariant_ignored:"+f.Cat, 1)
+				}
+			}
+		}
 	}
 	if s.Cfg.CheckCache && !s.Done() {
 		s.checkCache()
 	}
 	if s.Cfg.CheckRelQueries && !s.Done() {
 		s.checkRelQueries()
+	}
+	if s.Cfg.ScanRegistered && !s.Done() {
+		for _, b := range s.Worlds() {
+			for slot, c := range b.Regs {
+				if c == nil {
+					continue
+				}
+				if fd := s.RunQueryScript(b, c, &Op{K: OpQuery, Reg: true, Slot: slot}); fd != nil {
+					s.Report(fd)
+					return
+				}
+			}
+		}
 	}
 }
 
@@ -452,6 +484,10 @@ func (s *Sim) shapeIf(o *Op, b *WB) string {
 func (s *Sim) unexpectedPanic(o *Op, b *WB, p any, cat string) {
 	if s.N != nil && b != s.N && b.Rec != nil {
 		cat = CatPanicListener // the same call did not panic in the world without listener
+	}
+	if msg := fmt.Sprint(p); strings.Contains(msg, "unbalanced unlock") || strings.Contains(msg, "locked world") || strings.Contains(msg, "run out of the maximum") {
+		// no query is open between ops: the lock bookkeeping itself is wrong
+		cat = CatLock
 	}
 	s.Report(finding(cat, "%s: legal call panicked: %v: %s", b.Name, p, o.Describe()))
 }
@@ -676,10 +712,18 @@ func (s *Sim) drainCreateQuery(o *Op, b *WB, q *ecs.Query, st EntState) ([]ecs.E
 			return nil, fd
 		}
 	}
+	at := make([]ecs.Entity, o.N)
+	for i := range at {
+		at[i] = q.EntityAt(i)
+	}
 	vals := s.createVals(o)
 	hs := []ecs.Entity{}
 	seen := map[ecs.Entity]bool{}
 	for q.Next() {
+		if k := len(hs); k < len(at) && at[k] != q.Entity() {
+			q.Close()
+			return nil, finding(CatBatchQuery, "%s: NewBatchQ query: EntityAt(%d)=%v, the %d-th visited entity is %v", b.Name, k, at[k], k, q.Entity())
+		}
 		if b.Rec != nil && len(b.Rec.Cur) > 0 {
 			q.Close()
 			return nil, finding(CatEvents, "%s: %d events delivered while the NewBatchQ query is still open", b.Name, len(b.Rec.Cur))
@@ -1388,6 +1432,10 @@ func (s *Sim) drainBatchQuery(o *Op, b *WB, q *ecs.Query, affected []int, next m
 			return fd
 		}
 	}
+	at := make([]ecs.Entity, len(want))
+	for i := range at {
+		at[i] = q.EntityAt(i)
+	}
 	seen := map[int]bool{}
 	for q.Next() {
 		if b.Rec != nil && len(b.Rec.Cur) > 0 {
@@ -1395,6 +1443,10 @@ func (s *Sim) drainBatchQuery(o *Op, b *WB, q *ecs.Query, affected []int, next m
 			return finding(CatEvents, "%s: %d events delivered while the query of %s is still open", b.Name, len(b.Rec.Cur), o.K)
 		}
 		h := q.Entity()
+		if k := len(seen); k < len(at) && at[k] != h {
+			q.Close()
+			return finding(CatBatchQuery, "%s: query of %s: EntityAt(%d)=%v, the %d-th visited entity is %v", b.Name, o.Describe(), k, at[k], k, h)
+		}
 		ord, ok := b.Ord[h]
 		if !ok || !want[ord] {
 			q.Close()
@@ -1510,9 +1562,11 @@ func (s *Sim) doUnregister(o *Op) {
 			s.Report(finding(CatCacheDiff, "%s: Unregister returned a different filter than was registered (%s)", b.Name, c.F.String()))
 			return
 		}
+		b.Stale = append(b.Stale, c.Cached)
 		b.Regs[o.Slot] = nil
 	}
 	s.M.Regs[o.Slot] = nil
+	s.M.NStale++
 }
 
 func (s *Sim) doReset(o *Op) {
